@@ -171,7 +171,19 @@ fn exec(h: &History) -> (Vec<String>, Option<(String, String)>) {
                     log.push(format!("handle_in->{r:?}"));
                 }
                 Op::Extend(es) => {
-                    acc.extend(es.iter().map(|e| e.build()));
+                    // the same errors through iterators of different kinds: an exact size hint, a lower
+                    // bound of zero (`filter`), no hint at all (`from_fn`), and - for two and more - a bundle,
+                    // which is itself an iterator over its children
+                    match (es.len() + es.first().map(|e| e.uids().len()).unwrap_or(0)) % 4 {
+                        0 => acc.extend(es.iter().map(|e| e.build())),
+                        1 => acc.extend(es.iter().map(|e| e.build()).filter(|_| true)),
+                        2 => {
+                            let mut it = es.iter();
+                            acc.extend(std::iter::from_fn(move || it.next().map(|e| e.build())));
+                        }
+                        _ if es.len() >= 2 => acc.extend(darling::Error::multiple(es.iter().map(|e| e.build()).collect())),
+                        _ => acc.extend(es.iter().map(|e| e.build()).collect::<Vec<_>>()),
+                    }
                     log.push(format!("extend({})", es.len()));
                 }
                 Op::Checkpoint => match acc.checkpoint() {
